@@ -403,6 +403,131 @@ is accepted; with batch size 1 it is rejected -/
 example : validateBlocks [⟨1, 0, false⟩, ⟨2, 1, true⟩, ⟨3, 2, true⟩] 2 = true ∧
     validateBlocks [⟨1, 0, false⟩, ⟨2, 1, true⟩, ⟨3, 2, true⟩] 1 = false := by decide
 
+/-! ### Block store ahead of the filter store
+
+The only unequal-height pre-state reachable with real `headerfs` stores (the
+filter store's tip is resolved through the block index, so it cannot be ahead and
+readable).  Block hashes are collision free: the ids in the block store are
+pairwise distinct.  OBSERVATION (not a C14 violation — the stores stay intact):
+in this state an honest file from height 0 that reaches above the filter tip is
+ALWAYS refused (`err conn`), because `validateHeaderConnection` is handed the
+block TIP height instead of the overlap end, so the importer can never bring a
+lagging filter store level again; `C14_block_ahead_always_fails` is the general
+statement, the `example` below the concrete witness. -/
+
+/-- block store ahead: outside the recorded shape the stores are never touched,
+whatever the import reports -/
+theorem block_ahead_unchanged (F : File) (cfg : Cfg) (st : Stores) (hh : Healthy st)
+    (hahead : st.filters.length < st.blocks.length) (hnd : (st.blocks.map (·.id)).Nodup)
+    (hshape : f7Shape (obsOf st) F = false) :
+    (importStores F cfg st).2 = st ∧
+    (F.bstart = 0 → endHeight F > st.filters.length - 1 → (importStores F cfg st).1 ≠ none) ∧
+    ((importStores F cfg st).1 = none →
+      preChecks F = none ∧ F.bstart ≤ st.filters.length ∧ endHeight F ≤ st.filters.length - 1) := by
+  obtain ⟨hl1, hl2⟩ := healthy_len st hh
+  have hmk := healthy_eq_mk st hh
+  obtain ⟨B, Fl, rfl⟩ : ∃ B Fl, st = mk B Fl := ⟨_, _, hmk⟩
+  have hahead : Fl.length < B.length := hahead
+  have hnd : (B.map (·.id)).Nodup := hnd
+  have hl1 : B.length ≥ 1 := hl1
+  have hl2 : Fl.length ≥ 1 := hl2
+  have e3 : ∀ B Fl, (obsOf (mk B Fl)).blocks = B := fun _ _ => rfl
+  have e4 : ∀ B Fl, (obsOf (mk B Fl)).filters = Fl := fun _ _ => rfl
+  show (importRun F cfg (mk B Fl)).2.st = mk B Fl ∧
+    (F.bstart = 0 → endHeight F > Fl.length - 1 → (importRun F cfg (mk B Fl)).1 ≠ none) ∧
+    ((importRun F cfg (mk B Fl)).1 = none → preChecks F = none ∧ F.bstart ≤ Fl.length ∧ endHeight F ≤ Fl.length - 1)
+  by_cases hreach : endHeight F ≤ Fl.length - 1
+  · have hcov := importRun_covered_gen F cfg B Fl hl1 hl2 (by omega)
+    refine ⟨hcov.1, fun _ h => absurd h (by omega), fun hn => ?_⟩
+    obtain ⟨hp, hc, _⟩ := hcov.2.mp hn
+    have := continuity_no_gap F B Fl hl1 hl2 hc
+    exact ⟨hp, by omega, hreach⟩
+  · have hs : F.bstart = 0 := by
+      simp only [f7Shape, Bool.and_eq_false_iff, decide_eq_false_iff_not, e3, e4] at hshape
+      rcases hshape with h | h
+      · omega
+      · omega
+    have hearly : preChecks F ≠ none ∨ continuity F (mk B Fl) ≠ none ∨ validateBlocks F.blocks cfg.bs = false := by
+      by_cases h1 : preChecks F = none
+      · by_cases h2 : continuity F (mk B Fl) = none
+        · right; right
+          cases hv : validateBlocks F.blocks cfg.bs with
+          | false => rfl
+          | true => exact (block_ahead_checks_fail F cfg.bs B Fl hs hl2 hahead hnd (by omega) h2 hv).elim
+        · exact Or.inr (Or.inl h2)
+      · exact Or.inl h1
+    obtain ⟨hst, hne⟩ := importRun_early F cfg (mk B Fl) hearly
+    exact ⟨hst, fun _ _ => hne, fun hn => absurd hn hne⟩
+
+/-- **Failure clause with the block store ahead of the filter store** (outside
+the recorded shape, no `EqualHeights`): whatever error `Import` reports, both
+stores are exactly as before — usable, filters below blocks, nothing appended. -/
+theorem C14_failure_block_ahead_partial (F : File) (cfg : Cfg) (st : Stores) (e : Err) (hh : Healthy st)
+    (hahead : st.filters.length < st.blocks.length) (hnd : (st.blocks.map (·.id)).Nodup)
+    (hshape : f7Shape (obsOf st) F = false) (_herr : (importStores F cfg st).1 = some e) :
+    failureOk (obsOf st) F (obsOf (importStores F cfg st).2) = true ∧ (importStores F cfg st).2 = st := by
+  obtain ⟨hl1, hl2⟩ := healthy_len st hh
+  have hun := (block_ahead_unchanged F cfg st hh hahead hnd hshape).1
+  refine ⟨?_, hun⟩
+  rw [hun]
+  have hmk := healthy_eq_mk st hh
+  obtain ⟨B, Fl, rfl⟩ : ∃ B Fl, st = mk B Fl := ⟨_, _, hmk⟩
+  have hahead : Fl.length < B.length := hahead
+  have hfc := failContent_unchanged F B Fl hl1 hl2 (Nat.le_of_lt hahead)
+  have e3 : (obsOf (mk B Fl)).blocks = B := rfl
+  have e4 : (obsOf (mk B Fl)).filters = Fl := rfl
+  have hne : (B.length != Fl.length) = true := by
+    simp only [bne_iff_ne, ne_eq]; omega
+  simp only [failureOk, hfc, chainOk, e3, e4, List.drop_length, List.all_nil, Bool.and_true, Bool.true_and, hne,
+    Bool.true_or, Bool.and_self]
+  cases connected B <;> rfl
+
+/-- success with the block store ahead (possible only for a file ending at or
+below the filter tip): nothing to do, and nothing done -/
+theorem C14_success_block_ahead_partial (F : File) (cfg : Cfg) (st : Stores) (hh : Healthy st)
+    (hahead : st.filters.length < st.blocks.length) (hnd : (st.blocks.map (·.id)).Nodup)
+    (hshape : f7Shape (obsOf st) F = false) (hok : (importStores F cfg st).1 = none) :
+    contentOk (obsOf st) F (obsOf (importStores F cfg st).2) = true ∧
+    chainOk (obsOf st) (obsOf (importStores F cfg st).2) = true ∧ (importStores F cfg st).2 = st := by
+  obtain ⟨hl1, hl2⟩ := healthy_len st hh
+  obtain ⟨hun, _, hfacts⟩ := block_ahead_unchanged F cfg st hh hahead hnd hshape
+  obtain ⟨hp, hgap, hend⟩ := hfacts hok
+  obtain ⟨hmeta, _, hN, _⟩ := preChecks_none F hp
+  refine ⟨?_, ?_, hun⟩
+  · rw [hun]
+    have hmk := healthy_eq_mk st hh
+    obtain ⟨B, Fl, rfl⟩ : ∃ B Fl, st = mk B Fl := ⟨_, _, hmk⟩
+    have hahead : Fl.length < B.length := hahead
+    have hgap : F.bstart ≤ Fl.length := hgap
+    have hend : endHeight F ≤ Fl.length - 1 := hend
+    have hl1 : B.length ≥ 1 := hl1
+    have hl2 : Fl.length ≥ 1 := hl2
+    have hu := usable_mk B Fl hl1 hl2
+    have e3 : (obsOf (mk B Fl)).blocks = B := rfl
+    have e4 : (obsOf (mk B Fl)).filters = Fl := rfl
+    have hd1 : F.blocks.drop (B.length - F.bstart) = [] :=
+      List.drop_eq_nil_of_le (by unfold endHeight at hend; omega)
+    have hd2 : F.filters.drop (Fl.length - F.bstart) = [] :=
+      List.drop_eq_nil_of_le (by unfold endHeight at hend; omega)
+    have hg1 : F.bstart ≤ B.length := by omega
+    simp only [contentOk, hmeta, hu, e3, e4, extend, hd1, hd2, List.append_nil, hgap, hg1, decide_true, Bool.and_self,
+      beq_self_eq_true]
+  · rw [hun]
+    simp only [chainOk, List.drop_length, List.all_nil, Bool.and_true, Bool.or_eq_true, Bool.not_eq_true']
+    cases connected (obsOf st).blocks <;> simp
+
+/-- **The always-failing import** (observation): block store ahead, ids distinct,
+file from height 0 reaching above the filter tip — `Import` reports an error for
+every such file, however honest, every batch size, and changes nothing. -/
+theorem C14_block_ahead_always_fails (F : File) (cfg : Cfg) (st : Stores) (hh : Healthy st)
+    (hahead : st.filters.length < st.blocks.length) (hnd : (st.blocks.map (·.id)).Nodup)
+    (hs : F.bstart = 0) (hreach : endHeight F > st.filters.length - 1) :
+    (importStores F cfg st).1 ≠ none ∧ (importStores F cfg st).2 = st := by
+  have hshape : f7Shape (obsOf st) F = false := by
+    simp only [f7Shape, hs, Nat.lt_irrefl, decide_false, Bool.false_and]
+  obtain ⟨hun, hf, _⟩ := block_ahead_unchanged F cfg st hh hahead hnd hshape
+  exact ⟨hf hs hreach, hun⟩
+
 /-- The facts regenerated from chainimport/headers_import.go on this run that the
 model transcribes: `processBatch` hands `batchStart` — which `appendNewHeaders`
 initialises with the target `startHeight` and advances by `batchEnd + 1` — to both
